@@ -568,6 +568,15 @@ class GetMemberMissing(Contract):
         return {"self": me, "name": fresh("str", "name")}
 
 
+class GetItem(GetMember):
+    """archive[name]: the same member getmember(name) gives (the last of that name)"""
+    target = MOD + ":ArFile.__getitem__"
+
+
+class GetItemMissing(GetMemberMissing):
+    target = MOD + ":ArFile.__getitem__"
+
+
 class GetMembers(Contract):
     target = MOD + ":ArFile.getmembers"
     modular = False
@@ -693,7 +702,7 @@ def contracts():
             c = base(wf)
             c.__class__ = type("%s_%s" % (base.__name__, "fname" if wf else "nofname"), (base,), {})
             cs.append(c)
-    cs += [CollectMembers(), GetMember(), GetMemberMissing(), GetMembers(), GetNames()]
+    cs += [CollectMembers(), GetMember(), GetMemberMissing(), GetItem(), GetItemMissing(), GetMembers(), GetNames()]
     for by_name in (False, True):
         for base in (IndexArchive, Init):
             c = base(by_name)
@@ -902,8 +911,19 @@ def bounded_arfile(ctx):
                         last = max(i for i, x in enumerate(exp_names) if x == nm)
                         if af.getmember(nm) is not got[last]:
                             problems.append("getmember(%r) is not the last member of that name" % nm)
+                    # the aliases: subscripting, iteration, the `members` property
+                    for nm in set(exp_names):
+                        if af[nm] is not af.getmember(nm):
+                            problems.append("archive[%r] is not getmember(%r)" % (nm, nm))
+                    if list(af) != got or list(af.members) != got:
+                        problems.append("iterating the archive / the members property do not give getmembers()")
                     for nm in ("m1", "m2", "absent"):
                         if nm not in exp_names:
+                            try:
+                                af[nm]
+                                problems.append("archive[%r] on an archive without that name did not raise KeyError" % nm)
+                            except KeyError:
+                                pass
                             try:
                                 af.getmember(nm)
                                 problems.append("getmember(%r) on an archive without that name did not raise KeyError" % nm)
